@@ -733,6 +733,17 @@ theorem applyAction_wf (ext : Ext F) (hf : F2iRange ext) (a : Action) (v : GoVal
       · simp [GoVal.wf]
     | _ => simpa [applyAction] using hv
   | fmtUint => cases v <;> simp_all [applyAction, GoVal.wf]
+  | convTrunc t =>
+    cases v with
+    | flt k x =>
+      simp only [applyAction]
+      split
+      · split
+        · rename_i n _ hr
+          cases t <;> simp [inRange32, inRange64] at hr <;> simp [NumT.kind, GoVal.wf, kindRange] <;> omega
+        · simp [GoVal.wf]
+      · simp [GoVal.wf]
+    | _ => simpa [applyAction] using hv
   | parseFloatKeep t =>
     cases v with
     | str s =>
